@@ -142,12 +142,12 @@ def rule_K1(ctx):
         if "__eq__" not in ci.methods or "__hash__" not in ci.methods:
             ctx.fail("K1", cls + " defines value-based __eq__ and __hash__", ci.where(), "%s no longer defines both __eq__ and __hash__: as a cache-key component it is compared by identity, so a cached proposal / new-clone tree is reused after its %s changed in place (stale densities after a concentration update)" % (cls, fields[0]), construct=ci.qualname, stmt="__eq__/__hash__")
             continue
-        e = extract(prog, ci.methods["__eq__"])
-        h = extract(prog, ci.methods["__hash__"])
-        se = spec(prog, "def s(self, other):\n    return self.%s == other.%s\n" % (fields[0], fields[0]), ci.methods["__eq__"])
-        sh = spec(prog, "def s(self):\n    return hash(self.%s)\n" % fields[0], ci.methods["__hash__"])
-        same(ctx, "K1", cls + ".__eq__ compares " + fields[0], ci.methods["__eq__"], e.result, se.result, "equality")
-        same(ctx, "K1", cls + ".__hash__ hashes " + fields[0], ci.methods["__hash__"], h.result, sh.result, "hash")
+        e = extract(prog, _method(prog, ci, "__eq__"))
+        h = extract(prog, _method(prog, ci, "__hash__"))
+        se = spec(prog, "def s(self, other):\n    return self.%s == other.%s\n" % (fields[0], fields[0]), _method(prog, ci, "__eq__"))
+        sh = spec(prog, "def s(self):\n    return hash(self.%s)\n" % fields[0], _method(prog, ci, "__hash__"))
+        same(ctx, "K1", cls + ".__eq__ compares " + fields[0], _method(prog, ci, "__eq__"), e.result, se.result, "equality")
+        same(ctx, "K1", cls + ".__hash__ hashes " + fields[0], _method(prog, ci, "__hash__"), h.result, sh.result, "hash")
     dp = prog.cls("data.base.DataPoint")
     e = extract(prog, dp.methods["__eq__"])
     h = extract(prog, dp.methods["__hash__"])
@@ -165,6 +165,14 @@ def _delegates_to_prior(prog, ci):
     eq = ci.methods.get("__eq__")
     hs = ci.methods.get("__hash__")
     return eq is not None and hs is not None and "prior" in u(eq.node) and "prior" in u(hs.node)
+
+
+def _method(prog, ci, name):
+    """The method of that name the class uses: its own or one inherited from a base class inside the repository."""
+    m = prog.method(ci, name)
+    if m is None:
+        raise AnalysisError("%s defines no %s (nor does a base class in the repository)" % (ci.qualname, name))
+    return m
 
 
 def rule_K2(ctx):
@@ -191,10 +199,10 @@ def s(self, arr_1, arr_2):
         same_store(ctx, "K2", "NumpyTwoArraysHasher: " + a, g, ex, sp, a)
     for cls in ("NumpyArrayListHasher", "NumpyTwoArraysHasher"):
         ci = prog.cls(cls)
-        e = extract(prog, ci.methods["__eq__"])
-        h = extract(prog, ci.methods["__hash__"])
-        same(ctx, "K2", cls + ".__eq__ compares the digests", ci.methods["__eq__"], e.result, spec(prog, "def s(self, other):\n    return other.h == self.h\n", ci.methods["__eq__"]).result, "equality")
-        same(ctx, "K2", cls + ".__hash__ hashes the digests", ci.methods["__hash__"], h.result, spec(prog, "def s(self):\n    return hash(self.h)\n", ci.methods["__hash__"]).result, "hash")
+        e = extract(prog, _method(prog, ci, "__eq__"))
+        h = extract(prog, _method(prog, ci, "__hash__"))
+        same(ctx, "K2", cls + ".__eq__ compares the digests", _method(prog, ci, "__eq__"), e.result, spec(prog, "def s(self, other):\n    return other.h == self.h\n", _method(prog, ci, "__eq__")).result, "equality")
+        same(ctx, "K2", cls + ".__hash__ hashes the digests", _method(prog, ci, "__hash__"), h.result, spec(prog, "def s(self):\n    return hash(self.h)\n", _method(prog, ci, "__hash__")).result, "hash")
     # wrappers: key object built from the arguments; the body receives the arrays that were hashed
     w = prog.fn("list_of_np_cache.decorator.wrapper")
     ex = extract(prog, w)
